@@ -159,7 +159,8 @@ def render(prog, lang, layout=0):
                 rtype = "" if (v == "lineabove" and lang == "C") else "int "
                 rec["start_col"] = base + len(pre) + len(rtype) + 1
                 if v == "throws":
-                    L(f"{pre}int {name}(int a, int b) throws Exception, Error {{")
+                    # more than a handful of tokens between `)` and `{`: qualified names count a token per dot
+                    L(f"{pre}int {name}(int a, int b) throws java.io.IOException, java.sql.SQLException, java.text.ParseException, A, B, C, D, E, F {{")
                 elif v == "lineabove":
                     L(f"{pre}{rtype}{name}(int a, int b) {{")
                 elif v == "tailwrap":
